@@ -438,6 +438,10 @@ def corpus() -> list[dict]:
                 pouts=[("n", 0, 0)], inits=[("one", L.init_tok_for("one"))], tnodes=mul_one("Relu"), touts=[("n", 1, 0)])],
                 "host": host([N("Add", ["x", "one"], ["p"]), N("Add", ["p", "one_3"], ["q"]),
                               N("Relu", ["q"], ["a"]), N("Neg", ["a"], ["b"]), N("Relu", ["b"], ["z"])], ["x"], ["z"], inits=i2)})
+    # regression cases kept from the generated stream (C07-D7, C07-D8; fixed c9666a4): must pass
+    cf = core.VERIF / "harness" / "corpus_c07.jsonl"
+    if cf.exists():
+        out += [json.loads(l) for l in cf.read_text().splitlines() if l.strip()]
     # C07-D6: a pattern variable bound to an interior matched value: graph.remove(safe=True) raises
     out.append({"regress": "C07-D6", "with_cond": False, "rules": [dict(base, name="r1", family="reemit",
                 pnodes=[("Abs", "", [("v", 1)], 1, []), ("Sub", "", [("v", 0), ("n", 0, 0)], 1, [])], root=1, pouts=[("n", 1, 0)],
@@ -488,10 +492,6 @@ def check_asfn_body_witness() -> str | None:
 
 
 def classify(case, host, what: str = "") -> str | None:
-    if "Cannot rename initializer" in what:
-        return "C07-D8"
-    if "SSA across scopes" in what or "single static assignment" in what:
-        return "C07-D7"
     for fid, pred in PREDICATES.items():
         if pred(case, host):
             return fid
@@ -526,7 +526,7 @@ def main(run: core.Run) -> None:
         run.coverage.update(evaluations=1, distinct_nontrivial=1)
         return
 
-    n_cases = run.size(350, 4000)
+    n_cases = run.size(300, 4000)
     drift = core.fingerprint_drift(
         "C07", "onnxscript/rewriter/_rewrite_rule.py",
         ["RewriteRuleSet._apply_to_graph_or_function", "RewriteRuleSet.apply_to_model", "_update_opset_imports",
